@@ -26,6 +26,8 @@ func refCaseRandom(r *rand.Rand, maxPaths int, o SetupOpts, hiddenRate int) *Cas
 		switch {
 		case hiddenRate > 0 && r.Intn(hiddenRate) == 0:
 			hidden = append(hidden, i)
+		case hiddenRate > 0 && r.Intn(6) == 0:
+			// named by hints / Anon only, referenced nowhere (streams with hidden references only)
 		default:
 			for k := 0; k < 1+r.Intn(3); k++ {
 				refs = append(refs, i)
@@ -37,9 +39,44 @@ func refCaseRandom(r *rand.Rand, maxPaths int, o SetupOpts, hiddenRate int) *Cas
 	h = append(h, hist.Op{Kind: "noformat", F: 0, Flag: r.Intn(2) == 0})
 	h = append(h, hist.Op{Kind: "render", F: 0})
 	h = append(h, hist.Op{Kind: "imports", F: 0})
+	tags := []string{fmt.Sprintf("paths=%d", len(paths)), fmt.Sprintf("prefix=%v", rc.Prefix != ""), fmt.Sprintf("local=%v", local != "")}
+	tags = append(tags, refAnonTags(rc, setup)...)
 	return &Case{Hist: h, Stream: "random", NonTrivial: len(paths) > 1,
 		Meta: map[string]interface{}{"rc": rc},
-		Tags: []string{fmt.Sprintf("paths=%d", len(paths)), fmt.Sprintf("prefix=%v", rc.Prefix != ""), fmt.Sprintf("local=%v", local != "")}}
+		Tags: tags}
+}
+
+// refAnonTags: anon-then-hint (an Anon of a path is followed by a hint for the same path),
+// anon-then-hint-unreferenced (... and that path is referenced nowhere at a rendered
+// position, so `_ "path"` must survive the hint), anon-referenced (an Anon path is also
+// referenced: the reference replaces the anonymous import), two-anon (two Anon operations).
+func refAnonTags(rc *RefCase, setup hist.History) []string {
+	var tags []string
+	if len(rc.AnonThenHint) > 0 {
+		tags = append(tags, "anon-then-hint")
+		for p := range rc.AnonThenHint {
+			if !rc.Referenced(p) {
+				tags = append(tags, "anon-then-hint-unreferenced")
+				break
+			}
+		}
+	}
+	for p := range rc.Anon {
+		if rc.Referenced(p) {
+			tags = append(tags, "anon-referenced")
+			break
+		}
+	}
+	n := 0
+	for _, op := range setup {
+		if op.Kind == "anon" {
+			n++
+		}
+	}
+	if n >= 2 {
+		tags = append(tags, "two-anon")
+	}
+	return tags
 }
 
 func (c03) Generate(r *rand.Rand, t string) []*Case {
